@@ -740,6 +740,16 @@ package meta
 //@ func (*Data).pruneShardGroups$1$1
 //@   store ShardInfo.MarkDelete
 //@     requires [marks_exactly_the_named_shard] val && obj.ID == id
+// Schema cleaning after a prune uses the end time of the group that was REMOVED: it is read before the group is cut
+// out of the slice (afterwards the same position holds the next, still retained group, whose later end time would
+// make the cleaner drop columns - and measurements - that still have data inside the retention window).
+//@   ghost cut bool = false
+//@   call IsZero
+//@     set cut = false
+//@   call append
+//@     set cut = true
+//@   call UnixNano
+//@     requires [end_time_of_the_removed_group_is_read_before_the_cut] !cut
 
 
 // ================================================================ C14: schema cleaning
@@ -753,3 +763,31 @@ package meta
 //@   store CleanSchema
 //@     requires [column_end_time_never_moves_back] had ==> val.EndTime >= prev.EndTime
 //@     requires [column_type_kept] had ==> val.Typ == prev.Typ
+
+// The time range handed to a store for an index it is about to create decides when retention deletes that index. Index
+// ids inside a group are not contiguous after a scale-out, so the id intervals of neighbouring groups can both contain
+// an id: the lookup resolves such a tie to the YOUNGEST group (it scans from the last group down and returns the first
+// hit) - an index then never gets an earlier end time than its own group's, i.e. it is never deleted before its shard.
+//@ prop C14
+//@ func (*RetentionPolicyInfo).getIndexGroupTimeRange
+//@   requires rpi != nil
+//@   loop 1
+//@     invariant i < len(rpi.IndexGroups) && (forall k int :: i < k && k < len(rpi.IndexGroups) && len(rpi.IndexGroups[k].Indexes) > 0 ==> !(indexID >= rpi.IndexGroups[k].Indexes[0].ID && indexID <= rpi.IndexGroups[k].Indexes[len(rpi.IndexGroups[k].Indexes)-1].ID))
+
+// Scale-out: after a node joined, the partition view of EVERY database - one marked for deletion included, its shard
+// groups are still expanded by ExpandGroups - has the cluster's partition number (shards must not name owners that do
+// not exist).
+//@ prop C16
+//@ func (*Data).expandDBPtView
+//@   ghost viewLen int = 0
+//@   ghost n int = 0
+//@   call (*Data).DBPtView
+//@     requires [view_of_the_database_asked_for] arg0 == database
+//@     assume len(ret0) < 4294967296
+//@     set viewLen = len(ret0)
+//@   call (*Data).updatePtStatus
+//@     requires [adds_the_missing_partitions_in_order] arg0 == database && arg1 == viewLen + n
+//@     set n = n + 1
+//@   ensures [partition_view_reaches_the_cluster_number] ptNum >= viewLen ==> viewLen + n == ptNum
+//@   loop 1
+//@     invariant ptId == viewLen + n && (ptNum >= viewLen ==> ptId <= ptNum)
